@@ -760,6 +760,9 @@ ScopeTable ==
                       !.ops = {}, !.max = [N |-> 1, L |-> 1, D |-> 4, P |-> 1, C |-> 1, I |-> 6, Q |-> 1, W |-> 2], !.parents = {}],
     naming |-> NamingScope("DEFAULT", {}),
     naming_edif |-> NamingScope("EDIF", {}),
+    \* netlist.set_top_instance(<Definition>, instance_name) with names that cells of the library carry
+    naming_top |-> [NamingScope("DEFAULT", {}) EXCEPT !.ops = {"set_top_dm", "set_name:D"}, !.names = {"a", "b", "A"},
+                    !.max = [N |-> 1, L |-> 1, D |-> 3, P |-> 2, C |-> 1, I |-> 3, Q |-> 0, W |-> 0]],
     \* identifiers at the length limits: 255 / 256 characters, plain and with a leading &
     naming_long |-> [NamingScope("EDIF", {}) EXCEPT !.vals = {"@255:x", "@256:x", "&256:x", "&257:x"},
                      !.ops = {"set_eid:P", "set_eid:D", "new:P", "add:DP"}],
